@@ -151,7 +151,7 @@ def toMsg (syms : List (String × String)) (m : Sx) : Option Msg :=
   | some "mig" => do
     let c ← nth 1; let n ← nth 2; let s ← nth 3
     let code ← n.atom.toNat?
-    pure (.wasmMigrate (real c.atom) code (jsonStr s.print))
+    pure (.wasmMigrate (real c.atom) code (if s.print == "~" then [] else jsonStr s.print))   -- `~`: a zero-length message
   | some "upd" => do
     let c ← nth 1; let a ← nth 2
     pure (.wasmUpdateAdmin (real c.atom) (real a.atom))
@@ -464,8 +464,14 @@ def scripted (tag : String) : Code DExt where
 
 /-- the same behaviour packaged through `ContractWrapper::new_with_empty`: lifting is the identity on
 every message kind except `Custom`, which the wrapper cannot lift (`unreachable!()`, a panic) -/
+def emptyMsg : Entry → Bool
+  | .execute _ m | .instantiate _ m | .sudo m | .migrate m => m.isEmpty
+  | .reply _ => false
+
 def scriptedWrapped : Code DExt where
   run := fun en env ch own =>
+    -- a zero-length message is not JSON: the wrapper fails to deserialise it before the contract's function is entered
+    if emptyMsg en then (.err, "!noentry") else
     match (scripted "W").run en env ch own with
     | (.ok (resp, own'), note) =>
       if resp.msgs.any (fun sm => match sm.msg with | .ext .custom _ => true | _ => false) then (.panic, note)
@@ -483,6 +489,7 @@ def scriptedBare : Code DExt where
     | .sudo _ => (.err, "!noentry")
     | .migrate _ => (.err, "!noentry")
     | _ =>
+      if emptyMsg en then (.err, "!noentry") else
       match (scripted "N").run en env ch own with
       | (.ok (resp, own'), note) =>
         if resp.msgs.any (fun sm => match sm.msg with | .ext .custom _ => true | _ => false) then (.panic, note)
